@@ -34,7 +34,12 @@ type c12Case struct {
 	Level int   `json:"level"`
 	Entry int   `json:"entry"`
 	Bomb  bool  `json:"bomb,omitempty"`
+	// Text: 0 = the document is pure ASCII; 1 / 2 = it carries two-byte / four-byte UTF-8
+	// characters (sizes and limits count bytes, not characters)
+	Text int `json:"non_ascii,omitempty"`
 }
+
+var c12Texts = []string{"", "<!--Universit\u00e4t \u00e9\u00e9\u00e9-->", "<!--\U0001F600\U0001F600\U0001F600 \u65e5\u672c-->"}
 
 func c12Effective(limit int64, entry int) int64 {
 	if entry >= 4 || limit == 0 {
@@ -52,9 +57,15 @@ var (
 // c12Doc returns a well-formed document of exactly n bytes for the entry point's kind: a
 // genuine signed message padded with trailing whitespace when it fits, else the smallest
 // well-formed document padded likewise; nil when n < 4 (no well-formed document exists).
-func c12Doc(entry int, n int64) []byte {
+func c12Doc(entry int, n int64, text ...int) []byte {
 	kind := []string{"Response", "Response", "LogoutRequest", "LogoutResponse", "Response", "LogoutResponse"}[entry]
 	id := fmt.Sprintf("%s/%d", kind, n)
+	tx := 0
+	if len(text) > 0 && text[0] != 0 {
+		// the same documents followed by a comment holding multi-byte characters
+		tx = text[0]
+		id += fmt.Sprintf("/text=%d", tx)
+	}
 	c12Mu.Lock()
 	defer c12Mu.Unlock()
 	if d, ok := c12Docs[id]; ok {
@@ -75,11 +86,14 @@ func c12Doc(entry int, n int64) []byte {
 		c12Docs[baseID] = base
 	}
 	var d []byte
+	tail := c12Texts[tx]
 	switch {
 	case n < 4:
 		d = nil
-	case n >= int64(len(base)):
-		d = append(append([]byte{}, base...), bytes.Repeat([]byte{' '}, int(n)-len(base))...)
+	case n >= int64(len(base)+len(tail)):
+		d = append(append(append([]byte{}, base...), tail...), bytes.Repeat([]byte{' '}, int(n)-len(base)-len(tail))...)
+	case n >= int64(4+len(tail)):
+		d = []byte("<a/>" + tail + strings.Repeat(" ", int(n)-4-len(tail)))
 	default:
 		d = []byte("<a" + strings.Repeat(" ", int(n)-4) + "/>")
 	}
@@ -118,7 +132,7 @@ func c12Compress(prefix []byte, total int64, level int) string {
 }
 
 func c12Input(c c12Case) (compressed string, raw string, wellFormed bool) {
-	id := fmt.Sprintf("%d/%d/%d/%v", c.Entry, c.Size, c.Level, c.Bomb)
+	id := fmt.Sprintf("%d/%d/%d/%v/%d", c.Entry, c.Size, c.Level, c.Bomb, c.Text)
 	if c.Bomb {
 		id = fmt.Sprintf("bomb/%d/%d", c.Size, c.Level)
 	}
@@ -135,7 +149,7 @@ func c12Input(c c12Case) (compressed string, raw string, wellFormed bool) {
 		c12Mu.Unlock()
 		return s, "", false
 	}
-	d := c12Doc(c.Entry, c.Size)
+	d := c12Doc(c.Entry, c.Size, c.Text)
 	if d == nil {
 		d = bytes.Repeat([]byte{' '}, int(c.Size))
 		return base64.StdEncoding.EncodeToString(idp.Deflate(d, c.Level)), "", false
@@ -235,7 +249,7 @@ func c12Exec(c c12Case, measure bool) (keys []string, detail, class string) {
 		// the statement asks only for an error; but the outcome may not depend on what lies beyond
 		// limit+1 bytes of the expansion (that would mean it was materialised and looked at): the
 		// same stream with everything after that point replaced by garbage must fare the same
-		if d := c12Doc(c.Entry, c.Size); !c.Bomb && d != nil && c.Size > eff+1 && c.Size <= 64<<20 {
+		if d := c12Doc(c.Entry, c.Size, c.Text); !c.Bomb && d != nil && c.Size > eff+1 && c.Size <= 64<<20 {
 			twin := append([]byte{}, d...)
 			for i := eff + 1; i < int64(len(twin)); i++ {
 				twin[i] = 'x'
@@ -473,7 +487,7 @@ func c12Run(r *mc.Run) {
 	if r.Thorough() {
 		bomb = 2 << 30
 	}
-	r.Rule = "configured limit(6: unset, 1, 64, 2048, 65536, 5 MiB) x inflated size around the effective limit (L-1, L, L+1, 2L, 64L) x flate level(5: stored, 1, 6, 9, Huffman-only) x 6 entry points (the unverified decoders always at 5 MiB), documents = a genuine signed message (or the smallest well-formed document) padded with whitespace to the exact size; plus a streamed expansion bomb (256 MiB quick / 2 GiB thorough, ~1000:1) per limit x entry point x level with TotalAlloc measured around the call (sequential phase). Oracle: size > limit => error, and the same outcome (acceptance, error type and text) when everything after limit+1 bytes of the expansion is replaced by garbage (no wording is assumed); size <= limit => identical outcome, data and error to the same bytes presented uncompressed; the same for a DEFLATE-compressed plaintext inside an EncryptedAssertion (3 limits x 4 sizes x 2 levels); plus hand-framed stored-block streams whose first bytes read as whitespace followed by '<' (padding bits of the block header, a 60-byte block length) against the raw presentation; plus sequences per entry point x level x 4 unfinished streams: a DEFLATE stream that yields output and then ends without a final block, followed by an ordinary compressed message, whose outcome must equal the outcome of that message alone taken at process start. non-trivial = the input reached the inflater (raw parse failed); distinct = distinct case"
+	r.Rule = "configured limit(6: unset, 1, 64, 2048, 65536, 5 MiB) x inflated size around the effective limit (L-1, L, L+1, 2L, 64L) x flate level(5: stored, 1, 6, 9, Huffman-only) x 6 entry points (the unverified decoders always at 5 MiB), documents = a genuine signed message (or the smallest well-formed document) padded with whitespace to the exact size, also with a trailing comment of two-byte / four-byte UTF-8 characters (limits count bytes) for 4 limits x sizes L-1..L+2, 2L x 2 levels; plus a streamed expansion bomb (256 MiB quick / 2 GiB thorough, ~1000:1) per limit x entry point x level with TotalAlloc measured around the call (sequential phase). Oracle: size > limit => error, and the same outcome (acceptance, error type and text) when everything after limit+1 bytes of the expansion is replaced by garbage (no wording is assumed); size <= limit => identical outcome, data and error to the same bytes presented uncompressed; the same for a DEFLATE-compressed plaintext inside an EncryptedAssertion (3 limits x 4 sizes x 2 levels); plus hand-framed stored-block streams whose first bytes read as whitespace followed by '<' (padding bits of the block header, a 60-byte block length) against the raw presentation; plus sequences per entry point x level x 4 unfinished streams: a DEFLATE stream that yields output and then ends without a final block, followed by an ordinary compressed message, whose outcome must equal the outcome of that message alone taken at process start. non-trivial = the input reached the inflater (raw parse failed); distinct = distinct case"
 	r.Assume("runtime.MemStats.TotalAlloc deltas measured in a sequential phase with no other goroutine allocating")
 	// sequences: the references first, while the process has decoded nothing else
 	var seqs []c12Seq
@@ -535,6 +549,25 @@ func c12Run(r *mc.Run) {
 			}
 		}
 	}
+	// documents with multi-byte characters: bytes, not characters, are what is limited
+	nText := 0
+	for _, L := range []int64{64, 2048, 65536, c12Default} {
+		for e := range c12Entries {
+			eff := c12Effective(L, e)
+			if e >= 4 && L != c12Default {
+				continue
+			}
+			for _, sz := range []int64{eff - 1, eff, eff + 1, eff + 2, 2 * eff} {
+				for _, li := range []int{1, 2} {
+					for tx := 1; tx <= 2; tx++ {
+						cases = append(cases, c12Case{Limit: L, Size: sz, Level: li, Entry: e, Text: tx})
+						nText++
+					}
+				}
+			}
+		}
+	}
+	r.Set("non_ascii_cases", nText)
 	r.Set("cases", len(cases))
 	r.State(len(cases))
 	// big documents are memory-hungry: limit parallelism by running the large ones sequentially
